@@ -340,7 +340,9 @@ def boxedCase (p : Profile) (t : List String) : String :=
     | some k =>
       let hb := unhex hh
       let hdr := if k == .ht then enc16 (le16 hb 0 % 11) ++ enc16 (le16 hb 2 % 2) ++ hb.drop 4 else hb
-      let slices := ((rest.headD "").splitOn ",").filter (fun s => s != "") |>.map unhex
+      -- `-` = no slices; otherwise comma separated, `e` = an EMPTY slice
+      let arg := rest.headD "-"
+      let slices : List Bytes := if arg == "-" then [] else (arg.splitOn ",").map (fun s => if s == "e" || s == "" then [] else unhex s)
       match newBoxed p k (genericDesc k) hdr slices with
       | .ok b => boxedStr b (k.hsize + slices.flatten.length) (some slices.flatten.length)
       | .panic => "panic" | .oob => "OOB" | .ub => "UB"
